@@ -154,6 +154,7 @@ ConformsRun(out, r) ==
   /\ r.status = "ok" =>
        /\ r.zpe.z = ZOf(zpe, 0) /\ r.nmodes = nmodes /\ r.nint = nint
        /\ out.status = "inexact" => ~TotalsExact(r)
+       /\ out.status = "garbage" => ~(TotalsExact(r) /\ r.temps = ReqT /\ SigsMatch(ReqRowsFor(r), r, "thermal"))
        /\ out.status = "ok" =>
             /\ r.temps = TempsOfRows(out.rows)
             /\ r.den = (IF \A j \in DOMAIN out.rows : out.rows[j].den = 1 THEN 1 ELSE 2)
